@@ -48,6 +48,13 @@ MANIFEST = {
                   "of the remaining messages: MDCV / CLL Payload (sub-slices at a running position, partial) for every message value and after "
                   "decoding every payload; String of every decoded registered / CEA-608 / unregistered message: no partial operation fails and the "
                   "text is <= 4 bytes per payload byte + 200 (render-cost model; the real length is checked against the same bound on every run). "
+                  "(11) TimeCodeSEI.Payload and PicTimingAvcSEI.Payload through bits.FixedSliceWriter (C16SeiFswModel.v: the writer is the Go struct "
+                  "{buf, off, n, v, accError}; make / buf[off] = b / buf[:off] partial, the `for sw.n >= 8` loop on fuel, 64-bit shifts and masks): "
+                  "C16_bits_FixedSliceWriter_total for EVERY capacity >= 0 and EVERY sequence of WriteBits / WriteFlag / FlushBits (any value, any "
+                  "width) - no Panic, no OutOfFuel, at most `capacity` bytes; for EVERY message value (any number of clocks, length fields up to and "
+                  "beyond 255) Payload() returns <= Size() bytes and 8 Size() <= 9 + 44 clocks + sum of the length fields; composed with the decoders "
+                  "for every payload and every external parameter. On every run the bytes must equal Go's Payload() and C17's total model of it, for decoded "
+                  "messages and for arbitrary message values (length fields 0..255: writes of 256 bits). "
                   "Explored only (search, no theorem): field-level syntax writers "
                   "for AVC and HEVC SPS/PPS/slice drive the pipelines SPS -> PPS -> slice, SPS -> SEI and config record -> parameter sets "
                   "-> slice with 0/1/2 hostile fields per stage (each ue/se/u field at 0, 1, max-1, max, max+1, 255, 256, 2^16-1, 2^32-1 ...), "
@@ -59,7 +66,9 @@ MANIFEST = {
                   "operations and proves agreement. C15's constant loop caps are replaced by data-derived fuel in C16ParseModel.v / "
                   "C16HevcParseModel.v (text generated from C15's, agreement proved wherever C15's model is defined). The PPS multilayer / 3D "
                   "skeletons and the av1 Encode model (byte-level: bits.FixedSliceWriter packing not re-modelled) are C16's own and rest on the "
-                  "correspondence (class for the skeletons: hpps has no field for their content; Size + bytes for Encode). The model's "
+                  "correspondence (class for the skeletons: hpps has no field for their content; Size + bytes for Encode). The sequences of writes of the two "
+                  "FixedSliceWriter Payload methods are C17's op lists tc_ops / pt_ops (imported read-only); that the partial writer returns the bytes of "
+                  "C17's total model is compared on every case, not proved. The model's "
                   "rep_n (NumDeltaPocs + 1) is the Go byte loop only for NumDeltaPocs <= 254, which the RPS-bound theorem establishes. "
                   "Hang detection: one confirmation run of 5 s per timed-out case, at most 2 confirmed hangs are waited for per phase. "
                   "Go int is taken to be 64 bit (no wrap of len+2^32). Real time and heap are observed, not proved.",
@@ -165,7 +174,9 @@ def run(ctx):
         "cases": len(lines), "mismatches": len(mism), "distinct_cases": distinct, "classes": classes,
         "outside_model": outside,  # always 0: every case is compared (the PPS multilayer / 3D extension bodies are modelled)
         "distribution": "stage 2/3 (hevc SPS/PPS/slice + hevc pipelines SPS->PPS->slice, SPS->SEI, confrec->PS->slice; avc SPS/PPS/slice/GetSliceType/ParsePSAndSlice pipeline, avc+hevc ParseSEINalu, ExtractSEIData, 8 SEI decoders, "
-                        "ADTS, ASC, 7 Annex B helpers, av1 decode->Size/Encode and Encode of arbitrary record values with every value of each header byte): the search generators (captured seeds, every prefix of a seed, guard sweep = one unit per guarded ue field and value in {c-1,c,c+1,2c,2c+1,255,256,65535} with the announced elements behind it, worst-case RPS chains of 2..255 sets, mutants, field soups with "
+                        "ADTS, ASC, 7 Annex B helpers, av1 decode->Size/Encode and Encode of arbitrary record values with every value of each header byte, "
+                        "time code / AVC picture timing decode->Payload/Size/String on syntax-directed payloads (every flag path, offset lengths 0..31, truncated / mutated) and Payload/Size/String of arbitrary message values "
+                        "(0..7 clocks, each length field at 0,1,7,8,9,31,32,33,63,64,65,127,128,200,254,255 in each position): the search generators (captured seeds, every prefix of a seed, guard sweep = one unit per guarded ue field and value in {c-1,c,c+1,2c,2c+1,255,256,65535} with the announced elements behind it, worst-case RPS chains of 2..255 sets, mutants, field soups with "
                         "hostile ue(v), structured pipelines, raw short inputs), n/20 per target; reference parameter sets sent in CTX lines and "
                         "parsed by the model itself; sei.DecodePicTimingHevcSEI on fixed + random/field-soup payloads x random external flags and widths; 15 walkers on: fixed witnesses; every string over {00,01,04,fc,ff} up to length 3 (5 thorough); "
                         "12 hostile 32-bit length fields x every tail over {00,05,ff} of length 1..4 (6 thorough); "
@@ -237,7 +248,7 @@ def run(ctx):
     for p in prs:
         ctx.proof_violation_if_broken(p, "c16 search: %d evaluations, no failing input" % ctx.notes.get("search_evaluations", 0))
     ctx.cov["rule"] = ("corr: outcome class (ok|err|panic|hang|overalloc) and value of the 15 modelled walkers and class + projected "
-                       "values of 47 more modelled entry points on every generated sample; distinct = distinct (function,input,arg,class,value) lines; search: every target must end in ok|err "
+                       "values of 51 more modelled entry points on every generated sample; distinct = distinct (function,input,arg,class,value) lines; search: every target must end in ok|err "
                        "with allocation <= 512*len+1MiB inside the wall-clock budget, each call in a worker subprocess")
 
 
